@@ -25,6 +25,36 @@ CLAIMS = {
         "registration finishes before the first request.",
         "DESIGN.md 5 (C03)",
     ),
+    "C08": (
+        "typestate/dominance rules over SSA for the wrapper writer's commit latch, must-pass-through on dispatcher exits, who-may-access",
+        "Decides for all operation sequences (per-method path property): the underlying WriteHeader has one call site behind a "
+        "'not yet written' latch that its own path sets, carrying the recorded status after the 0->200 default; every underlying call "
+        "that can commit implicitly (Write, Flush) is dominated by the explicit commit; WriteHeader only records positive statuses; "
+        "every normal and recovered exit of the dispatcher passes the commit; the raw writer is reachable only through the wrapper. "
+        "It does not decide body bytes or Length() arithmetic under short writes.",
+        "Trusted: net/http commits implicitly on Write/Flush (documented); handlers write through c.Resp / Context helpers; go/ssa.",
+        "DESIGN.md 5 (C08)",
+    ),
+    "C09": (
+        "dominance/path rules over SSA for the recover frame, who-may-call recover, in-chain recovery must abort",
+        "Decides for every panic position at once: the dispatcher installs the recover frame iff a hook is set and before anything that "
+        "can run user code; inside it recover()!=nil guards store-value -> exactly one hook call -> commit, no re-panic; no other recover "
+        "or deferred frame in rux's request core (nothing resumes the chain); every in-chain recovering middleware of the module parks "
+        "the cursor; a panicked context is never recycled and every pooled context is fully re-initialised (C03-POOL, C10-RESET). "
+        "It does not decide what the hook writes nor net/http's behaviour on a propagated panic.",
+        "Trusted: Go defer/recover semantics; user handlers/hook are opaque; C10's re-initialisation argument.",
+        "DESIGN.md 5 (C09)",
+    ),
+    "C10": (
+        "definite-assignment (field coverage) analysis with callee summaries and value provenance over SSA",
+        "Decides for all request histories: every field of Context and of its embedded writer is assigned on every path of Init "
+        "(reset/Reset inlined) to a value that does not depend on the previous request (constant, nil, Init parameter, own writer "
+        "address, zero-length re-slice never re-extended); 'router' is request-invariant by who-may-write; Get->Init->dispatch and "
+        "Reset->dispatch orderings; no request-phase write to package-level/router state. It does not decide state user handlers keep "
+        "outside the context.",
+        "Trusted: sync.Pool semantics; handlers do not retain *Context after the request; go/ssa.",
+        "DESIGN.md 5 (C10)",
+    ),
 }
 
 NOT_APPLICABLE = {}
